@@ -1,5 +1,6 @@
 SPECIFICATION Spec
 CONSTANTS HourDoesNotZeroMinutes <- Off
+          DayMoveKeepsHour <- On
           Week53Everywhere <- Off
           AllowKnownClass <- On
           Shapes = 0
